@@ -278,7 +278,7 @@ def gen_workspace(rng, npatches=None, fail_prob=0.4, features=("modify", "create
     series = b""
     for l in series_lines:
         if rng.random() < 0.1:
-            series += rng.choice([b"# comment\n", b"\n", b"#\n"])
+            series += rng.choice([b"# comment\n", b"\n", b"#\n", b"   \n", b"\t\n", b" \t \n"])
         series += (b"  " if rng.random() < 0.05 else b"") + l + b"\n"
     return {"files": init, "dirs": dirs, "series": series, "applied": None, "patches": patches}
 
